@@ -3,6 +3,7 @@ package main
 import (
 	"fmt"
 	"sort"
+	"strings"
 
 	"github.com/taurusgroup/multi-party-sig/internal/zzverif/faults"
 	"github.com/taurusgroup/multi-party-sig/pkg/party"
@@ -36,7 +37,17 @@ func catalogue(w *world, check string) []kase {
 		mode, menu = "inject", "structural"
 	}
 	if w.sc.StateOnly {
-		return stateCases(w, w.spec.IDs[:1])
+		cs := stateCases(w, w.spec.IDs[:1])
+		if w.sc.BlameOnly {
+			var keep []kase
+			for _, k := range cs {
+				if strongBlame(k) {
+					keep = append(keep, k)
+				}
+			}
+			return keep
+		}
+		return cs
 	}
 	for _, d := range deviators {
 		for _, s := range slots {
@@ -69,6 +80,12 @@ func catalogue(w *world, check string) []kase {
 					mut := faults.Mut{Path: nd.Path, Op: name}
 					out = append(out, kase{Scenario: w.sc, Deviator: d, Slot: s, Path: nd.Path, Op: name, Menu: menu,
 						fault: faults.ContentFault(s, mut, ops[name], mode)})
+					if check == "C05" && !s.Broadcast && alsoBroadcasts(w, s) {
+						// the same malformed p2p message presented after the sender's broadcast has been processed
+						f := faults.ContentFault(s, mut, ops[name], mode)
+						f.Timing = "after-broadcast"
+						out = append(out, kase{Scenario: w.sc, Deviator: d, Slot: s, Path: nd.Path, Op: name + "@after-broadcast", Menu: menu, fault: f})
+					}
 				}
 			}
 			// whole-message operators
@@ -125,6 +142,13 @@ func stateCases(w *world, deviators []party.ID) []kase {
 	return out
 }
 
+// strongBlame: the state-level deviations that make a presigner's delta or chi contribution inconsistent
+// while all its proofs still verify (the value is shifted in round 3 and restored afterwards).
+func strongBlame(k kase) bool {
+	return k.Menu == "state" && strings.HasSuffix(k.Path, "[self]") && k.Op == "state+1-then-restore" &&
+		(strings.Contains(k.Path, "presign3.GammaShare") || strings.Contains(k.Path, "presign3.SecretECDSA") || strings.Contains(k.Path, "presign3.KShare"))
+}
+
 var blameFields = map[string]bool{"GammaShare": true, "KShare": true, "SecretECDSA": true, "ChiShare": true, "DeltaShares": true}
 
 func keyClass(key, d party.ID) string {
@@ -132,6 +156,16 @@ func keyClass(key, d party.ID) string {
 		return "self"
 	}
 	return "peer"
+}
+
+// alsoBroadcasts: does the sender of this p2p slot also broadcast in the same round?
+func alsoBroadcasts(w *world, s faults.Slot) bool {
+	for _, d := range w.seq {
+		if d.M.Broadcast && d.M.From == s.From && int(d.M.RoundNumber) == s.Round {
+			return true
+		}
+	}
+	return false
 }
 
 func messageOps(w *world, s faults.Slot, m *protocol.Message, check string) []*faults.Fault {
